@@ -23,7 +23,8 @@ func init() {
 	register(&Property{
 		ID:       "C18",
 		Title:    "Object and scope graphs survive decoration and optional restoration",
-		Packages: []string{pkgDecorator},
+		Packages: []string{pkgDecorator, pkgDst},
+		Extra:    []string{"go/ast"},
 		Build: func(p *Program, tier string) ([]*Unit, []UnitError) {
 			wo := map[string]*UnitOpts{}
 			for _, c := range convs {
@@ -32,13 +33,30 @@ func init() {
 			us, es := buildFuncUnits(p, convs, wo)
 			us2, es2 := buildDecorateNode(p, tier)
 			us3, es3 := buildRestoreNode(p, tier, "")
-			us4, es4 := buildFuncUnits(p, []string{fd("decorateSelectorExpr")}, nil)
+			us4, es4 := buildFuncUnits(p, []string{fd("decorateSelectorExpr"), pkgDst + ".NewPackage"}, nil)
+			// the same contract on the original, go/ast.NewPackage
+			if _, ok := p.pkgs["go/ast"]; ok {
+				for _, pr := range [][2]string{{pkgDst + ".NewPackage", "go/ast.NewPackage"}, {pkgDst + ".callback.importer", "go/ast.callback.importer"}} {
+					if sc := p.db.Funcs[pr[0]]; sc != nil {
+						if _, have := p.db.Funcs[pr[1]]; !have {
+							c := *sc
+							c.Key, c.Pkg = pr[1], "go/ast"
+							p.db.Funcs[pr[1]] = &c
+						}
+					}
+				}
+				if u, err := p.verifyFunc("go/ast.NewPackage", &UnitOpts{TypeRename: [2]string{"dst.", "ast."}}); err != nil {
+					es4 = append(es4, UnitError{"ast.NewPackage", err.Error()})
+				} else {
+					us4 = append(us4, u)
+				}
+			}
 			us = append(append(append(us, us2...), us3...), us4...)
 			es = append(append(append(es, es2...), es3...), es4...)
 			return us, es
 		},
 		Select: func(n string) bool {
-			for _, c := range []string{"decorateObject#", "decorateScope#", "restoreObject#", "restoreScope#"} {
+			for _, c := range []string{"decorateObject#", "decorateScope#", "restoreObject#", "restoreScope#", "NewPackage#"} {
 				if strings.Contains(n, c) {
 					return true
 				}
@@ -52,7 +70,7 @@ func init() {
 			"partial correctness: termination of the recursion on cyclic graphs rests on the memo hit and is not proved",
 		},
 		NotDecided: []string{
-			"dst.NewPackage against ast.NewPackage (resolve.go is a fork compared with a library that is outside the verifier's reach)",
+			"dst.NewPackage against ast.NewPackage beyond one shared contract (the returned scope is nested in the universe, the package holds the files given): that redeclaration and undeclared-name reports coincide is not decided",
 			"the deferred pass of RestoreFile that fills Decl/Data of restored objects from nodeDecl/nodeData: it ranges over maps that the calls inside the loop may extend",
 			"Object.Type is not copied (documented placeholder)",
 		},
